@@ -174,7 +174,7 @@ func runProgram(p *sm.Program, mk func(backend string) (*sm.Session, error)) *sm
 // minimizeAll shrinks every state-machine replay recorded by this process by delta
 // debugging (rapid's own shrinking works on the random stream and leaves long histories).
 func minimizeAll() {
-	if os.Getenv("VERIF_REPLAY") != "" || os.Getenv("VERIF_NOMIN") != "" {
+	if os.Getenv("VERIF_REPLAY") != "" || os.Getenv("VERIF_NOMIN") != "" || isFuzzWorker() {
 		return
 	}
 	collMu.Lock()
